@@ -2,11 +2,18 @@
 
    Model: Model/Noise.lean (BOLT-8 acts, key schedule), Model/Framing.lean (frames, key rotation,
    the byte-level reassembly loop of `PeerManager::do_read_event`, the Init gate).
+   Model/PeerMsgs.lean: the messages the PeerManager builds by itself from peer-chosen values (pong,
+   decode-failure warnings, reply_channel_range batches), their wire sizes, and `nodeRun` — decode,
+   Init gate, Ping / Pong arms — over the decrypted sequence (section "Message-size bounds" below;
+   the bounds are re-extracted from the source on every run: tools/gen_peer_sizes.py →
+   Generated/PeerSizes.lean, tied by `size_bounds_match_source`).
    The cryptographic primitives are PARAMETERS (`Noise.Crypto`); every property of them that a
    theorem needs is an explicit hypothesis (`AeadOK`, `Authentic`, `BoxBinds`, `HandshakeOK`),
-   never an axiom.  Helper lemmas: Proofs/Framing.lean. -/
+   never an axiom.  Helper lemmas: Proofs/Framing.lean, Proofs/PeerMsgs.lean. -/
 import LdkModel.Proofs.Framing
+import LdkModel.Proofs.PeerMsgs
 import LdkModel.Generated.NoiseConsts
+import LdkModel.Generated.PeerSizes
 namespace Ldk.C15
 open Ldk.Noise Ldk.Framing
 
@@ -374,5 +381,329 @@ example : gateRun (fun t => if t = 16 then .init else if t = 40001 then .known e
 example : gateRun (fun t => if t = 16 then .init else if t = 40001 then .known else .unknown)
     (fun _ => true) Gate.start [[0, 16], [0x40, 0x01], [0x9c, 0x41, 9], [0x40, 0x02], [0x9c, 0x41]]
     = [.initOk, .ignored, .passUp [0x9c, 0x41, 9], .disconnect] := by decide
+
+open Ldk.PeerMsgs
+
+/-! ## Message-size bounds
+
+   A peer chooses numbers (`num_pong_bytes`, a message type, a block range); the node turns them into
+   messages of its own.  Every such message must satisfy the encryptor's precondition
+   (`≤ LN_MAX_MSG_LEN`, otherwise `encrypt_message` panics under debug assertions and drops the message
+   after logging otherwise), and what BOLT 1 says must be answered must be answered. -/
+
+private theorem encRej_false (x : Nat) : PeerSizes.encryptRejects x = false ↔ x ≤ 65535 := by
+  simp [PeerSizes.encryptRejects, PeerSizes.LN_MAX_MSG_LEN]
+private theorem encRej_true (x : Nat) : PeerSizes.encryptRejects x = true ↔ 65535 < x := by
+  simp [PeerSizes.encryptRejects, PeerSizes.LN_MAX_MSG_LEN]
+private theorem decRej_false (x : Nat) : PeerSizes.decryptRejects x = false ↔ x ≤ 65551 := by
+  simp [PeerSizes.decryptRejects, PeerSizes.LN_MAX_MSG_LEN]
+private theorem decRej_true (x : Nat) : PeerSizes.decryptRejects x = true ↔ 65551 < x := by
+  simp [PeerSizes.decryptRejects, PeerSizes.LN_MAX_MSG_LEN]
+private theorem pongSize_src (n : Nat) :
+    PeerSizes.TYPE_BYTES + PeerSizes.pongBodySize (PeerSizes.pongByteslen n)
+      = 2 + ((if n < 65535 then 2 else 10) + n) := rfl
+
+
+/-- **A ping is answered iff `num_pong_bytes < 65532`** (BOLT 1), for every value a peer can put on
+    the wire (and beyond). -/
+theorem ping_answered_iff (ponglen : Nat) : (pingReply ponglen).isSome ↔ ponglen < 65532 := by
+  unfold pingReply PONG_LIMIT; split <;> simp [*]
+example : (pingReply 65531).isSome ∧ (pingReply 65532).isNone ∧ (pingReply 65535).isNone := by decide
+
+
+/-- **Pong wire size**: 2 bytes type + 2 bytes `byteslen` field + `ponglen` zero bytes, for every
+    `ponglen` below the `CollectionLength` escape value. -/
+theorem pong_wire_size (ponglen : Nat) (h : ponglen < 65535) :
+    (encodePong ponglen).length = 4 + ponglen := by
+  rw [encodePong_length, if_pos h]
+example : (encodePong 65531).length = 65535 := pong_wire_size _ (by omega)
+example : encodePong 3 = [0, 19, 0, 3, 0, 0, 0] := by decide
+
+
+/-- **The handler's bound is exactly the encryptor's precondition**: for ALL `ponglen`, the pong the
+    node would build fits `LN_MAX_MSG_LEN` iff `ponglen < 65532` (the arithmetic: `4 + ponglen ≤ 65535`). -/
+theorem pong_fits_iff (ponglen : Nat) :
+    (encodePong ponglen).length ≤ Ldk.LN_MAX_MSG_LEN ↔ ponglen < 65532 := by
+  rw [encodePong_length]
+  show _ ≤ 65535 ↔ _
+  split <;> omega
+example : ¬ (encodePong 65532).length ≤ Ldk.LN_MAX_MSG_LEN := fun h => by
+  have := (pong_fits_iff 65532).mp h; omega
+
+
+/-- … and so `encrypt_message` (Framing.send) carries the reply exactly when the Ping arm builds one:
+    no reply is ever refused by the encryptor ("dropped after logging" / debug panic), and no ping that
+    could be answered is ignored. -/
+theorem ping_bound_is_encryptor_precondition (s : Sender) (ponglen : Nat) :
+    (pingReply ponglen).isSome ↔ (send c s (encodePong ponglen)).isSome := by
+  rw [ping_answered_iff, ← pong_fits_iff]
+  unfold send
+  split <;> simp <;> omega
+example : (send toy s0 (encodePong 65532)).isNone := by
+  have h := ping_bound_is_encryptor_precondition toy s0 65532
+  have h0 : ¬ (pingReply 65532).isSome := by decide
+  cases hs : send toy s0 (encodePong 65532) with
+  | none => rfl
+  | some x => exact absurd (h.mpr (by simp [hs])) h0
+
+
+/-- every pong the node builds: it is `Pong { byteslen: ponglen }`, has `4 + ponglen ≤ 65535` bytes
+    and is sealed by the encryptor -/
+theorem pong_reply_is_sent (s : Sender) (ponglen : Nat) (r : Bytes) (h : pingReply ponglen = some r) :
+    r = encodePong ponglen ∧ r.length = 4 + ponglen ∧ 4 + ponglen ≤ Ldk.LN_MAX_MSG_LEN
+      ∧ send c s r = some (frame c s r) := by
+  obtain ⟨h1, h2, h3⟩ := pingReply_fits ponglen r h
+  refine ⟨h1, h2, by rw [← h2]; exact h3.2, ?_⟩
+  unfold send
+  rw [if_neg (by have := h3.2; omega)]
+example : ∃ r, pingReply 65531 = some r ∧ r.length = 65535 ∧ send toy s0 r = some (frame toy s0 r) := by
+  have h : pingReply 65531 = some (encodePong 65531) := by
+    unfold pingReply PONG_LIMIT; rw [if_pos (by omega)]
+  exact ⟨_, h, (pong_reply_is_sent toy s0 65531 _ h).2.1, (pong_reply_is_sent toy s0 65531 _ h).2.2.2⟩
+
+
+/-- **Every message the PeerManager builds by itself fits a frame**, whatever the peer sent: for every
+    received message sequence (any bytes, any types, decodable or not, before or after Init) every
+    reply handed to enqueue_message (pong, decode-failure warning) has 2 … `LN_MAX_MSG_LEN` bytes, so
+    `encrypt_message` never refuses it. -/
+theorem node_replies_fit (classify : Nat → Kind) (initOk : Bytes → Bool) (other : Bytes → Decoded)
+    (g : Gate) (received : List Bytes) (s : Sender) :
+    ∀ r ∈ repliesOf (nodeRun classify initOk other g received),
+      2 ≤ r.length ∧ r.length ≤ Ldk.LN_MAX_MSG_LEN ∧ send c s r = some (frame c s r) := by
+  intro r hr
+  have h := nodeRun_replies_fit classify initOk other received g r hr
+  refine ⟨h.1, h.2, ?_⟩
+  unfold send
+  rw [if_neg (by have := h.2; omega)]
+-- Init, a ping asking for 3 bytes, a ping asking for 65532 (ignored), an undecodable gossip message
+-- (warning), a ping that does not decode (drop): two replies, then the drop
+example : nodeRun (fun t => if t = 16 then .init else .unknown) (fun _ => true)
+      (fun m => if msgType m = 256 then .bogusGossip else .ok) Gate.start
+      [[0, 16], [0, 18, 0, 3, 0, 1, 9], [0, 18, 0xff, 0xfc, 0, 0], [1, 0, 7], [0, 18, 0, 0, 0, 2, 0], [0, 16]]
+    = [.reply [0, 19, 0, 3, 0, 0, 0], .reply (bogusGossipWarning 256), .disc] := by decide
+
+
+/-- **… and is delivered**: the replies, framed by the node's sender, reach the peer exactly and in
+    order for every partition of the ciphertext into reads (nothing is dropped silently). -/
+theorem node_replies_delivered (hc : AeadOK c) (classify : Nat → Kind) (initOk : Bytes → Bool)
+    (other : Bytes → Decoded) (g : Gate) (received : List Bytes) (s : Sender) (chunks : List Bytes)
+    (hch : chunks.flatten = (sendAll c s (repliesOf (nodeRun classify initOk other g received))).1) :
+    recvChunks c (Receiver.mirrorOf s) chunks
+      = (repliesOf (nodeRun classify initOk other g received),
+         some (Receiver.mirrorOf (sendAll c s (repliesOf (nodeRun classify initOk other g received))).2)) :=
+  transport_delivers c hc s _ (fun r hr => nodeRun_replies_fit classify initOk other received g r hr)
+    chunks hch
+example (chunks : List Bytes)
+    (h : chunks.flatten = (sendAll toy s0 [encodePong 3, encodePong 5]).1) :
+    recvChunks toy (Receiver.mirrorOf s0) chunks
+      = ([encodePong 3, encodePong 5],
+         some (Receiver.mirrorOf (sendAll toy s0 [encodePong 3, encodePong 5]).2)) := by
+  have hr : repliesOf (nodeRun (fun _ => .unknown) (fun _ => true) (fun _ => .ok)
+      { theirInit := true, ourInitQueued := true } [[0, 18, 0, 3, 0, 0], [0, 18, 0, 5, 0, 0]])
+      = [encodePong 3, encodePong 5] := by
+    simp only [nodeRun, nodeStep, decode]
+    decide
+  have := node_replies_delivered toy toy_aeadOK (fun _ => .unknown) (fun _ => true) (fun _ => .ok)
+    { theirInit := true, ourInitQueued := true } [[0, 18, 0, 3, 0, 0], [0, 18, 0, 5, 0, 0]] s0 chunks
+  rw [hr] at this
+  exact this h
+
+
+/-- **What a ping does**, for every message of type 18 that decodes (any `byteslen`, trailing bytes
+    allowed) received after Init: the reply is `Pong { byteslen: ponglen }` iff `ponglen < 65532`,
+    otherwise nothing; the connection is kept and nothing is passed to a handler. -/
+theorem ping_answered_exactly (classify : Nat → Kind) (initOk : Bytes → Bool) (other : Bytes → Decoded)
+    (g : Gate) (hg : g.theirInit = true) (m : Bytes) (hty : msgType m = 18) (ponglen byteslen : Nat)
+    (hp : parsePing (m.drop 2) = some (ponglen, byteslen)) :
+    nodeStep classify initOk other g m
+      = (g, if ponglen < 65532 then [.reply (encodePong ponglen)] else []) := by
+  unfold nodeStep decode
+  simp only [hty, PING_TYPE, hp, Option.isSome_some, if_true, hg, Bool.not_true, Bool.false_eq_true,
+    if_false, pingReply, PONG_LIMIT]
+  by_cases h : ponglen < 65532 <;> simp [h]
+/-- a message of type 18 that does not decode (shorter than its two u16s, or `byteslen` larger than
+    what follows) drops the connection -/
+theorem malformed_ping_disconnects (classify : Nat → Kind) (initOk : Bytes → Bool)
+    (other : Bytes → Decoded) (g : Gate) (m : Bytes) (hty : msgType m = 18)
+    (hp : parsePing (m.drop 2) = none) :
+    nodeStep classify initOk other g m = (g, [.disc]) := by
+  unfold nodeStep decode
+  simp [hty, PING_TYPE, hp]
+example (g : Gate) : nodeStep (fun _ => .unknown) (fun _ => true) (fun _ => .ok) g [0, 18, 0, 0, 0, 2, 0]
+    = (g, [.disc]) := malformed_ping_disconnects _ _ _ g _ (by decide) (by decide)
+
+
+/-- `parsePing` inverts `encodePing` (so the theorems above are about the pings a peer encodes) -/
+theorem parsePing_encodePing (ponglen byteslen : Nat) (hp : ponglen < 65536) (hb : byteslen < 65535)
+    (extra : Bytes) :
+    parsePing ((encodePing ponglen byteslen ++ extra).drop 2) = some (ponglen, byteslen) := by
+  have h1 : (encodePing ponglen byteslen ++ extra).drop 2
+      = be16 ponglen ++ (be16 byteslen ++ (zeros byteslen ++ extra)) := by
+    simp [encodePing, collectionLength, hb, be16, PING_TYPE]
+  rw [h1]
+  have h2 : ∀ (n : Nat) (rest : Bytes), n < 65536 → unbe16 (be16 n ++ rest) = n := by
+    intro n rest hn
+    have := unbe16_be16 n hn
+    simpa [unbe16, be16] using this
+  unfold parsePing
+  have hd : (be16 ponglen ++ (be16 byteslen ++ (zeros byteslen ++ extra))).drop 2
+      = be16 byteslen ++ (zeros byteslen ++ extra) := by simp [be16]
+  rw [hd, h2 _ _ hp, h2 _ _ (by omega)]
+  simp [be16, zeros_length]
+  omega
+
+example (g : Gate) (hg : g.theirInit = true) :
+    nodeStep (fun _ => .unknown) (fun _ => true) (fun _ => .ok) g (encodePing 65532 5 ++ [1, 2])
+      = (g, []) := by
+  have := ping_answered_exactly (fun _ => .unknown) (fun _ => true) (fun _ => .ok) g hg
+    (encodePing 65532 5 ++ [1, 2]) (by decide) 65532 5 (parsePing_encodePing 65532 5 (by omega) (by omega) _)
+  simpa using this
+
+
+/-- the node's own ping is 70 bytes and asks for the 4-byte pong -/
+theorem own_ping_size : ownPing.length = 70 ∧ pingReply 0 = some (encodePong 0)
+    ∧ (encodePong 0).length = 4 := by decide
+
+/-- the decode-failure warnings are small whatever type the peer put on the wire -/
+theorem warnings_fit (ty : Nat) :
+    (bogusGossipWarning ty).length ≤ 81 ∧ zlibWarning.length = 73 :=
+  ⟨(bogus_len ty).2, zlib_len⟩
+example : bogusGossipWarning 256 = encodeWarning (ascii "Unreadable/bogus gossip message of type 256") := by
+  decide
+
+
+/-- **Read side**: the length header is a u16, so the body box the reader waits for (`msg_len + 16`)
+    never exceeds what `decrypt_message` accepts (`LN_MAX_MSG_LEN + 16`) — its size check cannot fire
+    from `do_read_event` — and after the `msg_len < 2` rule it is at least the `2 + 16` the
+    `debug_assert!` before `decrypt_message` demands. -/
+theorem read_body_size_in_range (p : Bytes) :
+    PeerSizes.decryptRejects (unbe16 p + PeerSizes.READ_BODY_EXTRA) = false
+    ∧ (2 ≤ unbe16 p → PeerSizes.READ_BODY_MIN ≤ unbe16 p + PeerSizes.READ_BODY_EXTRA) := by
+  have := unbe16_lt p
+  rw [decRej_false]
+  simp only [PeerSizes.READ_BODY_EXTRA, PeerSizes.READ_BODY_MIN]
+  omega
+example : PeerSizes.decryptRejects (65535 + 16) = false ∧ PeerSizes.decryptRejects (65535 + 17) = true := by
+  decide
+
+
+/-- **The source's bounds, as translated**: the Ping arm's comparison (`PeerSizes.pingAnswered`)
+    implies the precondition of `encrypt_message_with_header_0s` (`PeerSizes.encryptRejects`) for the
+    pong it builds: type + byteslen field + ponglen = `4 + ponglen ≤ 65535`. -/
+theorem source_ping_bound_implies_encryptor_precondition (ponglen : Nat)
+    (h : PeerSizes.pingAnswered ponglen = true) :
+    PeerSizes.TYPE_BYTES + PeerSizes.pongBodySize (PeerSizes.pongByteslen ponglen) = 4 + ponglen
+    ∧ 4 + ponglen ≤ PeerSizes.LN_MAX_MSG_LEN
+    ∧ PeerSizes.encryptRejects
+        (PeerSizes.TYPE_BYTES + PeerSizes.pongBodySize (PeerSizes.pongByteslen ponglen)) = false := by
+  simp only [PeerSizes.pingAnswered, decide_eq_true_eq] at h
+  rw [pongSize_src, if_pos (by omega), encRej_false]
+  show _ ∧ _ ≤ 65535 ∧ _
+  omega
+example : PeerSizes.pingAnswered 65531 = true ∧ PeerSizes.pingAnswered 65532 = false := by decide
+
+
+/-- … and conversely every ping the source ignores could not have been answered (BOLT 1: the node
+    MUST answer `num_pong_bytes < 65532`) -/
+theorem source_ping_bound_is_tight (ponglen : Nat) (h : PeerSizes.pingAnswered ponglen = false) :
+    PeerSizes.encryptRejects
+        (PeerSizes.TYPE_BYTES + PeerSizes.pongBodySize (PeerSizes.pongByteslen ponglen)) = true := by
+  simp only [PeerSizes.pingAnswered, decide_eq_false_iff_not] at h
+  rw [pongSize_src, encRej_true]
+  split <;> omega
+example : PeerSizes.encryptRejects (PeerSizes.TYPE_BYTES + PeerSizes.pongBodySize 65532) = true := by decide
+
+
+/-- the ping the PeerManager builds by itself (timer tick / extra ping), with the source's literals, is
+    accepted by the encryptor -/
+theorem source_own_ping_fits :
+    PeerSizes.encryptRejects (PeerSizes.TYPE_BYTES + PeerSizes.pingBodySize PeerSizes.OWN_PING_BYTESLEN) = false
+    ∧ PeerSizes.pingAnswered PeerSizes.OWN_PING_PONGLEN = true := by
+  rw [encRej_false]; decide
+
+/-- one reply_channel_range batch (`≤ MAX_SCIDS_PER_REPLY` ids, routing/gossip.rs) fits a frame and
+    its u16 `encoding_len` does not wrap -/
+theorem reply_channel_range_fits (scids : Nat) (h : scids ≤ PeerSizes.MAX_SCIDS_PER_REPLY) :
+    replyChannelRangeLen scids ≤ Ldk.LN_MAX_MSG_LEN
+    ∧ PeerSizes.replyChannelRangeEncodingLen scids < 65536
+    ∧ PeerSizes.encryptRejects (PeerSizes.TYPE_BYTES + PeerSizes.replyChannelRangeBodySize scids) = false := by
+  simp only [PeerSizes.MAX_SCIDS_PER_REPLY] at h
+  rw [encRej_false]
+  simp only [replyChannelRangeLen, PeerSizes.replyChannelRangeEncodingLen, PeerSizes.TYPE_BYTES,
+    PeerSizes.replyChannelRangeBodySize]
+  refine ⟨?_, by omega, by omega⟩
+  show _ ≤ 65535; omega
+example : replyChannelRangeLen 8000 = 64046 ∧ ¬ replyChannelRangeLen 8187 ≤ Ldk.LN_MAX_MSG_LEN := by decide
+
+
+/-- **Tie of the size model to the source** (tools/gen_peer_sizes.py → Generated/PeerSizes.lean,
+    regenerated on every run): the model's Ping bound, pong / ping / warning / reply_channel_range
+    encodings, the encryptor's and the reader's limits are the translated ones — for all arguments. -/
+theorem size_bounds_match_source :
+    Ldk.LN_MAX_MSG_LEN = PeerSizes.LN_MAX_MSG_LEN
+    ∧ (∀ n, (pingReply n).isSome = PeerSizes.pingAnswered n)
+    ∧ (∀ n r, pingReply n = some r → r = encodePong (PeerSizes.pongByteslen n))
+    ∧ (∀ n, (collectionLength n).length = PeerSizes.collectionLengthSize n)
+    ∧ (∀ n, (encodePong n).length = PeerSizes.TYPE_BYTES + PeerSizes.pongBodySize n)
+    ∧ (∀ p b, (encodePing p b).length = PeerSizes.TYPE_BYTES + PeerSizes.pingBodySize b)
+    ∧ (∀ (s : Sender) (m : Bytes), (send c s m).isNone = PeerSizes.encryptRejects m.length)
+    ∧ (∀ n, PeerSizes.fromEncodedRejects n = PeerSizes.encryptRejects n)
+    ∧ (∀ (r : Receiver) (box : Bytes), PeerSizes.decryptRejects box.length = true →
+          decryptMessage c r box = none)
+    ∧ (∀ (r : Receiver) (box : Bytes), PeerSizes.decryptRejects box.length = false →
+          decryptMessage c r box = (c.aeadOpen r.rk r.rn [] box).map (fun m => (m, { r with rn := r.rn + 1 })))
+    ∧ PING_TYPE = PeerSizes.PING_TYPE ∧ PONG_TYPE = PeerSizes.PONG_TYPE
+    ∧ WARNING_TYPE = PeerSizes.WARNING_TYPE
+    ∧ ownPing = encodePing PeerSizes.OWN_PING_PONGLEN PeerSizes.OWN_PING_BYTESLEN
+    ∧ PeerSizes.HEADER_PLACEHOLDER = NoiseConsts.HEADER_BOX_LEN
+    ∧ PeerSizes.LENGTH_HEADER_BYTES + NoiseConsts.TAG_LEN = NoiseConsts.HEADER_BOX_LEN
+    ∧ PeerSizes.READ_BODY_EXTRA = NoiseConsts.TAG_LEN
+    ∧ PeerSizes.READ_BODY_MIN = NoiseConsts.MIN_MSG_LEN + NoiseConsts.TAG_LEN
+    ∧ PeerSizes.HEADER_PLACEHOLDER + NoiseConsts.TAG_LEN ≤ PeerSizes.MSG_BUF_ALLOC_SIZE
+    ∧ PeerSizes.MSG_BUF_ALLOC_SIZE ≤ PeerSizes.LN_MAX_MSG_LEN
+    ∧ (∀ d : Bytes, (encodeWarning d).length = PeerSizes.TYPE_BYTES + PeerSizes.warningBodySize d.length)
+    ∧ zlibWarning.length = PeerSizes.TYPE_BYTES + PeerSizes.warningBodySize PeerSizes.ZLIB_WARNING_LEN
+    ∧ (∀ ty, bogusGossipWarning ty
+          = encodeWarning (ascii PeerSizes.BOGUS_GOSSIP_WARNING_PREFIX ++ dec5 ty))
+    ∧ (∀ n, replyChannelRangeLen n = PeerSizes.TYPE_BYTES + PeerSizes.replyChannelRangeBodySize n)
+    ∧ Ldk.MAX_SCIDS_PER_REPLY = PeerSizes.MAX_SCIDS_PER_REPLY := by
+  refine ⟨rfl, ?_, ?_, ?_, ?_, ?_, ?_, ?_, ?_, ?_, rfl, rfl, rfl, rfl, rfl, rfl, rfl, rfl,
+    by decide, by decide, ?_, by decide, fun _ => rfl, ?_, rfl⟩
+  · intro n
+    unfold pingReply PONG_LIMIT PeerSizes.pingAnswered
+    split <;> simp [*]
+  · intro n r h
+    exact (pingReply_fits n r h).1
+  · intro n
+    rw [collectionLength_length]; unfold PeerSizes.collectionLengthSize; split <;> rfl
+  · intro n
+    rw [encodePong_length]
+    unfold PeerSizes.TYPE_BYTES PeerSizes.pongBodySize PeerSizes.collectionLengthSize
+    split <;> omega
+  · intro p b
+    rw [encodePing_length]
+    unfold PeerSizes.TYPE_BYTES PeerSizes.pingBodySize PeerSizes.collectionLengthSize
+    split <;> omega
+  · intro s m
+    unfold send PeerSizes.encryptRejects PeerSizes.LN_MAX_MSG_LEN
+    have : Ldk.LN_MAX_MSG_LEN = 65535 := rfl
+    split <;> simp <;> omega
+  · intro n; rfl
+  · intro r box h
+    unfold decryptMessage
+    rw [decRej_true] at h
+    have : Ldk.LN_MAX_MSG_LEN = 65535 := rfl
+    rw [if_pos (by omega)]
+  · intro r box h
+    unfold decryptMessage
+    rw [decRej_false] at h
+    have : Ldk.LN_MAX_MSG_LEN = 65535 := rfl
+    rw [if_neg (by omega)]
+    cases c.aeadOpen r.rk r.rn [] box <;> rfl
+  · intro d
+    rw [encodeWarning_length]
+    simp [PeerSizes.TYPE_BYTES, PeerSizes.warningBodySize, PeerSizes.CHANNEL_ID_LEN]; omega
+  · intro n
+    simp [replyChannelRangeLen, PeerSizes.TYPE_BYTES, PeerSizes.replyChannelRangeBodySize]; omega
 
 end Ldk.C15
